@@ -333,3 +333,98 @@ fn c07_2d_track_commands_do_not_interfere() {
     kani::cover!(!do_pause && !do_resume && do_volume);
     core::mem::forget(b);
 }
+
+// ----------------------------------------------------------------------------------------------------------------
+// Track::process on a track WITHOUT sounds or children: `out` is pre-loaded with the signal its sounds/children would
+// have summed into it (process only ever adds to `out`).  No Box<dyn Sound>/Track is moved into an arena, so these run
+// in minutes and belong to the quick tier.
+// ----------------------------------------------------------------------------------------------------------------
+
+// @ob id=C02.3e strength=bounded tier=quick timeout=2400 bound="ibs 2, 1-2 frames; empty sound/child storages, the incoming signal pre-loaded in `out` (dyadic grid); two probe effects (x*0.5+1/4 then x*2+1/8); one send route at 0 dB or -60 dB; track volume 0 dB or -60 dB" axioms=EXP10 fn=track/sub.rs::Track::process
+// @req a playing track
+// @ens out = effects in order (signal) x amp(volume) (fade at unity); the send's input receives exactly that post-fader signal x the route gain, only for the frames rendered; each effect is asked once for out.len() frames; scratch buffer untouched/zero
+#[kani::proof]
+#[kani::unwind(4)]
+#[kani::stub(f32::powf, powf32_model)]
+fn c02_3e_track_effects_volume_and_sends() {
+    let mut e = env(1);
+    let send_key = e.send_ctl.insert(mk_send_track(2, Decibels(0.0), vec![])).unwrap();
+    e.sends.remove_and_add(|_| false);
+    let (vol, amp) = if kani::any() { (Decibels(0.0), 1.0f32) } else { (Decibels(-60.0), 0.0) };
+    let (route, ramp) = if kani::any() { (Decibels(0.0), 1.0f32) } else { (Decibels(-60.0), 0.0) };
+    let mut b = mk_track(2, vol, vec![Box::new(ProbeEffect { id: 0, gain: 0.5, add: 0.25 }), Box::new(ProbeEffect { id: 1, gain: 2.0, add: 0.125 })], vec![(SendTrackId(send_key), route)], 0, 0, false);
+    let n: usize = if kani::any() { 1 } else { 2 };
+    let inp = [grid_frame(), grid_frame()];
+    let mut out = inp;
+    b.track.process(&mut out[..n], 1.0 / 48000.0, &e.clocks, &e.modulators, &e.listeners, None, &mut e.sends);
+    let st = e.sends.get_mut(send_key).unwrap();
+    let mut i = 0;
+    while i < 2 {
+        let want = Frame::new(((inp[i].left * 0.5 + 0.25) * 2.0 + 0.125) * amp, (inp[i].right * 0.5 * 2.0) * amp);
+        let got = send_input(st, i);
+        if i < n {
+            assert!(out[i].left == want.left && out[i].right == want.right, "C02.3e: track output = effects in order x track volume x fade");
+            assert!(got.left == want.left * ramp && got.right == want.right * ramp, "C02.3e: sends are fed from the post-fader signal x route volume");
+        } else {
+            assert!(out[i].left == inp[i].left && got.left == 0.0 && got.right == 0.0, "C02.3e: frames beyond the chunk are neither touched nor sent");
+        }
+        i += 1;
+    }
+    unsafe { assert!(PE_CALLS[0] == 1 && PE_CALLS[1] == 1 && PE_FRAMES[0] == n && PE_FRAMES[1] == n && PE_ORDER[0] < PE_ORDER[1], "C02.3e: effects run once each, in order, for every frame"); }
+    kani::cover!(n == 1 && amp == 1.0 && ramp == 1.0);
+    kani::cover!(amp == 0.0);
+    core::mem::forget(e); core::mem::forget(b);
+}
+
+// @ob id=C12.2c,C02.3f strength=bounded tier=quick timeout=2400 bound="as C02.3e; the track paused through its command reader with a zero-length fade" fn=track/sub.rs::Track::{process,read_commands,pause}
+// @req pause command read at a callback; one zero-length warm-up update; then a 2-frame process with signal pre-loaded in `out`
+// @ens Pausing right after the callback, Paused after the fade completes; a paused track outputs exact silence, runs none of its effects and feeds nothing to its sends; resume(immediate) brings it back: Resuming, effects run again
+#[kani::proof]
+#[kani::unwind(4)]
+#[kani::stub(f32::powf, powf32_model)]
+fn c12_2c_paused_track_is_silent_and_inert() {
+    let mut e = env(1);
+    let send_key = e.send_ctl.insert(mk_send_track(2, Decibels(0.0), vec![])).unwrap();
+    e.sends.remove_and_add(|_| false);
+    let mut b = mk_track(2, Decibels(0.0), vec![Box::new(ProbeEffect { id: 0, gain: 0.5, add: 0.25 })], vec![(SendTrackId(send_key), Decibels(0.0))], 0, 0, false);
+    b.writers.pause.write(zero_tween());
+    b.track.read_commands();
+    assert!(b.track.shared.state() == TrackPlaybackState::Pausing, "C12.2c: pause is applied at the callback");
+    let mut warm = [Frame::ZERO; 1];
+    b.track.process(&mut warm, 0.0, &e.clocks, &e.modulators, &e.listeners, None, &mut e.sends);
+    assert!(b.track.shared.state() == TrackPlaybackState::Paused, "C12.2c: a zero-length fade completes at the next update");
+    unsafe { PE_CALLS[0] = 0; }
+    let before = { let st = e.sends.get_mut(send_key).unwrap(); (send_input(st, 0), send_input(st, 1)) };
+    let mut out = [Frame::new(3.0, 3.0); 2];
+    b.track.process(&mut out, 1.0 / 48000.0, &e.clocks, &e.modulators, &e.listeners, None, &mut e.sends);
+    assert!(out[0].left == 0.0 && out[0].right == 0.0 && out[1].left == 0.0 && out[1].right == 0.0, "C12.2c: a paused track emits exact silence");
+    unsafe { assert!(PE_CALLS[0] == 0, "C12.2c: nothing on a paused track is processed"); }
+    let st = e.sends.get_mut(send_key).unwrap();
+    assert!(send_input(st, 0).left == before.0.left && send_input(st, 1).left == before.1.left, "C12.2c: a paused branch sends nothing");
+    b.writers.resume.write((StartTime::Immediate, zero_tween()));
+    b.track.read_commands();
+    assert!(b.track.shared.state() == TrackPlaybackState::Resuming, "C12.2c: resume is applied at the callback");
+    kani::cover!(true);
+    core::mem::forget(e); core::mem::forget(b);
+}
+
+// @ob id=C15.3b strength=bounded tier=quick timeout=2400 bound="a spatial track (strength 3/4, linear attenuation) with empty storages, signal pre-loaded in `out`; listener arena of capacity 1 that is empty (the listener never existed or was removed); 2 frames" axioms=EXP10 fn=track/sub.rs::Track::process
+// @req the track's listener id does not resolve
+// @ens every output frame is exactly zero: a spatial track without a listener is silent
+#[kani::proof]
+#[kani::unwind(4)]
+#[kani::stub(f32::powf, powf32_model)]
+fn c15_3b_spatial_track_without_listener_is_silent() {
+    let (clocks, c1) = Clocks::new(0);
+    let (modulators, c2) = Modulators::new(0);
+    let (listeners, c3) = Listeners::new(1);
+    let (mut sends, c4) = ResourceStorage::<SendTrack>::new(0);
+    let mut b = mk_track(2, Decibels(0.0), vec![], vec![], 0, 0, false);
+    b.track.spatial_data = Some(spatial(Vec3::new(2.0, 0.0, 0.0), 0.75, Some(Easing::Linear)));
+    let mut out = [Frame::new(0.5, 0.25), Frame::new(-0.5, 1.0)];
+    b.track.process(&mut out, 1.0 / 48000.0, &clocks, &modulators, &listeners, None, &mut sends);
+    assert!(out[0].left == 0.0 && out[0].right == 0.0 && out[1].left == 0.0 && out[1].right == 0.0, "C15.3b: a spatial track without a listener is silent");
+    kani::cover!(true);
+    core::mem::forget(b); core::mem::forget(clocks); core::mem::forget(modulators); core::mem::forget(listeners); core::mem::forget(sends);
+    core::mem::forget(c1); core::mem::forget(c2); core::mem::forget(c3); core::mem::forget(c4);
+}
